@@ -62,9 +62,10 @@ class SendDataInChunks(Contract):
         k = key_of(command, operation)
         return (0 <= offset and offset <= len(data)
                 and g.stream == upd(old.g.stream, k, sel(old.g.stream, k) + data[0:offset]))
-    def inv_frame(g, old, finished):
+    def inv_frame(g, old, finished, command, operation):
         return (g.nx >= old.g.nx and prefix_of(old.g.log, g.log) and len(g.log) == len(old.g.log) + (g.nx - old.g.nx)
-                and g.conn == old.g.conn and g.disc == old.g.disc and implies(finished, g.nx >= old.g.nx + 1))
+                and g.conn == old.g.conn and g.disc == old.g.disc and implies(finished, g.nx >= old.g.nx + 1)
+                and implies(g.nx >= old.g.nx + 1, g.last_cmd == command and g.last_op == operation))
     def inv_counters(offset, total_bytes_sent, bytes_requested):
         return total_bytes_sent == offset and 0 <= bytes_requested and bytes_requested <= 255
     def inv_finished(finished, response, operation, next_operations, expect_full_data, total_bytes_sent, data,
@@ -103,7 +104,8 @@ class SendDataInChunks(Contract):
                        (not (result[1][2] == operation or result[1][2] in next_operations)
                         or (expect_full_data and
                             len(sel(g.stream, k)) - len(sel(old.g.stream, k)) < len(data))))
-    def post_frame(g, old): return chunks_frame(g, old)
+    def post_frame(g, old, command, operation):
+        return chunks_frame(g, old) and g.last_cmd == command and g.last_op == operation
     ensures = [post_prefix, post_success, post_failure, post_frame]
 
     # exceptions of _send_command propagate unchanged (nothing caught, nothing added)
@@ -112,7 +114,7 @@ class SendDataInChunks(Contract):
         n = len(sel(g.stream, k)) - len(sel(old.g.stream, k))
         return (0 <= n and n <= len(data)
                 and g.stream == upd(old.g.stream, k, sel(old.g.stream, k) + data[0:n])
-                and chunks_frame(g, old))
+                and chunks_frame(g, old) and g.last_cmd == command and g.last_op == operation)
     def x_err(exc, g): return classify(g) == K_ERR and exc.args[0] == g.last_sw
     def x_timeout(g): return classify(g) == K_TIMEOUT
     def x_comm(g): return classify(g) == K_COMM
